@@ -208,7 +208,7 @@ fn spec(t: Tier) -> Spec {
     Spec {
         id: "C17",
         level: "exploration",
-        rule: format!("every regex AST with <= {} nodes over atoms a b / . [ab] [^a], concatenation, alternation, * + ? and {{1,2}} (operands of postfix operators are atoms or groups), prefixed either by the literal \\./ or (ASTs one node smaller) by a floating .* and plus every AST of up to {} nodes over a, b with ?, *, concatenation and alternation only; rendered in each of emacs, posix-extended, grep, posix-basic, ed, sed with that syntax's spelling (ASTs using an operator the syntax lacks are skipped for it); x -regex / -iregex; x three placements of -regextype (directly before, inside a preceding parenthesis, before a parenthesis holding -regex) and two consecutive -regextype options; evaluated by the real find on a tree whose paths are ./NAME for every NAME of <= 3 letters over a,b (b is a directory holding a, b, ab), upper-case variants A aB BA, and compared path by path with whole-string membership in the AST's language (set-of-end-positions matcher; -iregex on case-folded letters). long-name slice: .*/(b|bc*d)(T)* with T in c|cc, cc|c, c?, c{{1,2}} in emacs, posix-extended, grep x -regex/-iregex against names b c^n d, b c^n x, b c^n for every n <= {long} (exact answers required) and n in 33, 37 (exact, or the engine's giving up reported loudly: diagnostic naming the path, exit status != 0, path not selected); evaluation = (pattern, syntax, primary, placement, path); non-trivial = AST with an operator", max_size(t), deep_size(t), long = long_exact(t)),
+        rule: format!("every regex AST with <= {} nodes over atoms a b / . [ab] [^a], concatenation, alternation, * + ? and {{1,2}} (operands of postfix operators are atoms or groups), prefixed either by the literal \\./ or (ASTs one node smaller) by a floating .* and plus every AST of up to {} nodes over a, b with ?, *, concatenation and alternation only; rendered in each of emacs, posix-extended, grep, posix-basic, ed, sed with that syntax's spelling (ASTs using an operator the syntax lacks are skipped for it); x -regex / -iregex; x three placements of -regextype (directly before, inside a preceding parenthesis, before a parenthesis holding -regex) and two consecutive -regextype options; evaluated by the real find on a tree whose paths are ./NAME for every NAME of <= 3 letters over a,b (b is a directory holding a, b, ab), upper-case variants A aB BA, and compared path by path with whole-string membership in the AST's language (set-of-end-positions matcher; -iregex on case-folded letters). odd-name slice: names that are not valid UTF-8 (`.*` selects them, its negation does not, `.` stands for the undecodable byte) and a name holding a newline (prefix-first and prefix-last alternations with [^x] both select it), emacs and posix-extended, -regex/-iregex; long-name slice: .*/(b|bc*d)(T)* with T in c|cc, cc|c, c?, c{{1,2}} in emacs, posix-extended, grep x -regex/-iregex against names b c^n d, b c^n x, b c^n for every n <= {long} (exact answers required) and n in 33, 37 (exact, or the engine's giving up reported loudly: diagnostic naming the path, exit status != 0, path not selected); evaluation = (pattern, syntax, primary, placement, path); non-trivial = AST with an operator", max_size(t), deep_size(t), long = long_exact(t)),
         bound: json!({"max_ast_nodes": max_size(t), "syntaxes": TYPES.iter().map(|t| t.0).collect::<Vec<_>>(), "placements": ["before","in-preceding-parens","before-parens-holding-regex","two-regextypes"]}),
         assumptions: vec!["for patterns with quantifiers nested 5 deep or more, and for the two longest names of the long-name slice, the engine may give up on a path provided it is loud about it (diagnostic naming the path, exit status 1, path not selected); everywhere else every answer must be exact and the exit status 0".into(), "'.' and [^a] versus newline are not exercised (no newline in the paths)".into(), "emacs is the default syntax (also checked with no -regextype at all)".into()],
         shards: 0,
@@ -439,6 +439,65 @@ fn run(ctx: &mut Ctx) {
     }
     let _ = std::env::set_current_dir(&ctx.sbx);
     long_name_slice(ctx, false);
+    if ctx.shard == 5 % ctx.nshards {
+        odd_name_slice(ctx);
+    }
+}
+
+/// Names that are not valid UTF-8 and names holding a newline. For the former only what every
+/// reading agrees on is judged: `.*` (which emacs' `.` makes "any characters but newline") selects
+/// them, `! -regex '.*'` does not; for the latter, the order of alternatives must not matter
+/// ([^x] matches the newline): `\./a\|\./a[^x]b` and its mirror image both select ./a<NL>b.
+fn odd_name_slice(ctx: &mut Ctx) {
+    use std::os::unix::ffi::OsStrExt;
+    let w = ctx.sbx.join("on");
+    let _ = crate::sandbox::force_remove(&w);
+    std::fs::create_dir(&w).unwrap();
+    for n in [&b"n\xffm"[..], b"d\xfe", b"a\nb", b"axb", b"plain"] {
+        let p = w.join(std::ffi::OsStr::from_bytes(n));
+        if n == b"d\xfe" {
+            std::fs::create_dir(&p).unwrap();
+            std::fs::write(p.join("inner"), b"").unwrap();
+        } else {
+            std::fs::write(&p, b"").unwrap();
+        }
+    }
+    std::env::set_current_dir(&w).unwrap();
+    let count = |args: &[&str]| -> (usize, crate::findrun::FindOut) {
+        let o = run_find(args);
+        (o.out.iter().filter(|&&c| c == 0).count(), o)
+    };
+    // entries without a newline: ., n\xffm, d\xfe, d\xfe/inner, axb, plain = 6 ; with: 7
+    for (tname, alt, go, gc) in [("emacs", "\\|", "\\(", "\\)"), ("posix-extended", "|", "(", ")")] {
+        for prim in ["-regex", "-iregex"] {
+            let cases: Vec<(Vec<String>, usize, &str)> = vec![
+                (vec!["!".into(), "-name".into(), "a?b".into(), prim.into(), ".*".into()], 5, "`.*` must select every path without a newline, valid UTF-8 or not"),
+                (vec!["!".into(), "-name".into(), "a?b".into(), "!".into(), prim.into(), ".*".into()], 0, "`! -regex .*` must select no path without a newline"),
+                (vec![prim.into(), format!("\\./a{alt}\\./a[^x]b")], 1, "short alternative first: ./a<NL>b is in the language"),
+                (vec![prim.into(), format!("\\./a[^x]b{alt}\\./a")], 1, "long alternative first: ./a<NL>b is in the language"),
+                (vec![prim.into(), format!("\\./a{go}[^x]b{gc}*")], 1, "./a([^x]b)* selects ./a<NL>b only (./axb has an x)"),
+                (vec![prim.into(), "\\./d.".into()], 1, "`.` stands for the undecodable byte of ./d\\xfe"),
+            ];
+            for (expr, want, why) in cases {
+                let mut args: Vec<&str> = vec![".", "-regextype", tname];
+                args.extend(expr.iter().map(|s| s.as_str()));
+                args.push("-print0");
+                let (n, o) = count(&args);
+                ctx.rep.evaluations += 1;
+                ctx.rep.nontrivial += 1;
+                ctx.rep.count("odd_name_cases", 1);
+                if n != want || o.code != Ok(0) {
+                    ctx.rep.violation(
+                        &format!("C17 names that are not valid UTF-8 or hold a newline: wrong selection [{prim} {tname}]"),
+                        format!("find {:?}: {n} entries selected, expected {want} ({why}); selected {:?}; status {:?}", args, String::from_utf8_lossy(&o.out).replace('\0', " | "), o.code),
+                        json!({"prop":"C17","odd_names":true}),
+                    );
+                }
+            }
+        }
+    }
+    let _ = std::env::set_current_dir(&ctx.sbx);
+    let _ = crate::sandbox::force_remove(&w);
 }
 
 /// Longest run of c's in the exact zone / in the zone where a loud refusal is also accepted.
@@ -561,6 +620,10 @@ fn size(r: &Re) -> usize {
 }
 
 fn replay(case: &Value, ctx: &mut Ctx) -> Option<String> {
+    if case["odd_names"] == true {
+        odd_name_slice(ctx);
+        return ctx.rep.violations.keys().next().cloned();
+    }
     if case["long"] == true {
         long_name_slice(ctx, true);
         return ctx.rep.violations.keys().next().cloned();
